@@ -333,7 +333,7 @@ func discharge(g *group, timeoutS int, all bool) *ObligResult {
 			res.Model = r.Model
 			return res
 		default:
-			if j-i > 1 {
+			if j-i > 1 && timeoutS > 4 {
 				// the disjunction over paths was too much for one query:
 				// decide every path on its own
 				if sub := dischargeEach(disj[i:j], want, timeoutS, all, res); sub == "unsat" {
@@ -621,6 +621,12 @@ func checkProperty(id, tier string) int {
 	}
 
 	var extraResults []*ObligResult
+	knownNames := map[string]bool{}
+	for _, k := range known {
+		if k.Property == id && k.Status == "known" {
+			knownNames[k.Obligation] = true
+		}
+	}
 	// discharge
 	results := make([]*ObligResult, len(order))
 	var dwg sync.WaitGroup
@@ -631,11 +637,41 @@ func checkProperty(id, tier string) int {
 			defer dwg.Done()
 			dsem <- struct{}{}
 			defer func() { <-dsem }()
-			results[i] = discharge(g, timeoutS, all)
+			t := timeoutS
+			if knownNames[g.name] && tier != "thorough" {
+				// recorded as not provable: do not spend the full budget on it
+				t = 4
+			}
+			results[i] = discharge(g, t, all)
 		}(i, groups[name])
 	}
 	dwg.Wait()
 	cwg.Wait()
+	// an obligation left undecided while the machine was saturated gets a
+	// second, quieter attempt (two at a time); known findings are not retried
+	{
+		var rwg sync.WaitGroup
+		rsem := make(chan struct{}, 2)
+		for i, name := range order {
+			if results[i] == nil || results[i].Result != "undecided" || knownNames[name] {
+				continue
+			}
+			rwg.Add(1)
+			go func(i int, g *group) {
+				defer rwg.Done()
+				rsem <- struct{}{}
+				defer func() { <-rsem }()
+				first := results[i].Ms
+				r := discharge(g, timeoutS, all)
+				r.Ms += first
+				if r.Result != "undecided" {
+					r.Note = strings.TrimSpace(r.Note + " (decided on the second attempt)")
+				}
+				results[i] = r
+			}(i, groups[name])
+		}
+		rwg.Wait()
+	}
 
 	// calls-only clauses: the static callees of the function
 	for _, r := range runs {
